@@ -344,7 +344,16 @@ def arg_mode(c):
 def who_writes_format(ctx):
     R = 'C13.who-writes-format'
     n = 0
+    from ..model import known_names
+    from .reflib import _syntactic_graph
+    graph = _syntactic_graph(ctx.repo)
     for fi in ctx.repo.all_functions():
+        # a helper the checker does not know by name, called only by the confirmed writers, is part of
+        # them (its body is evaluated in place where they call it)
+        if fi.qualname.rsplit('.', 1)[1] not in known_names() and fi.parent is None:
+            callers = {f for f, cs in graph.items() if fi.qualname in cs and f != fi.qualname}
+            if callers and callers <= set(FORMAT_WRITERS):
+                continue
         fa = ctx.fa(fi.qualname)
         hits = []
         for e in fa.events:
